@@ -327,7 +327,22 @@ class C18(Spec):
         return lattice_units('checks/c18.cpp', shards=(lambda g, s: (4 if 'SGal3' in g or g == 'SE_2_3' else 2) * (2 if tier == 'thorough' else 1)))
 
 
-_SPECS = {'C08': C08, 'C09': C09, 'C10': C10, 'C11': C11, 'C13': C13, 'C18': C18, 'C01': C01, 'C02': C02, 'C03': C03, 'C04': C04, 'C05': C05, 'C06': C06, 'C07': C07}
+class C15(Spec):
+    design_ref = 'DESIGN.md 4/C15'
+    level_text = ('every pair (A,B) of the reduced x tiny element lattices with relative rotation <= pi-1e-6: end points for all three methods and all 9 pairs of end velocities (zero, O(1), 1e3-sized), '
+                  'rejection of 7 out-of-range parameters (incl. 1+ulp, +-inf, NaN), the SLERP geodesic law at 8 parameters (0, ulp, 1e-9, 1/4, 1/2, 3/4, 1-ulp/2, 1) against A expm(t log(A^-1 B)) of the reference model, '
+                  'left equivariance for 3 translations; the smoothing polynomial over exact rationals (GMP) on the grid k/1024 for every degree 0..8 and over all floats in [0,1] (thorough) / a 2^-16 grid (quick)')
+    rule = 'cells = (A, B) pairs x (method, velocities | t | g); phi: (degree, grid point); non-trivial = both end-point rotations non-zero'
+    explanation = 'explicit enumeration on the real code; oracle = reference-model geodesic, exact rational arithmetic for the polynomial'
+    assumptions = COMMON_ASSUMPTIONS + ['supported smoothing degrees are {1,2,3,4} (the degrees the implementation documents); any other degree must raise']
+
+    def units(self, tier):
+        us = lattice_units('checks/c15.cpp', shards=(lambda g, s: (4 if 'SGal3' in g or g == 'SE_2_3' else 2) * (2 if tier == 'thorough' else 1)))
+        us.append(Unit('phi', 'checks/c15_phi.cpp', defs=['VF_UNIT="smoothing_phi/exact+float"'], link=[], ldflags=['-lgmpxx', '-lgmp']))
+        return us
+
+
+_SPECS = {'C08': C08, 'C09': C09, 'C10': C10, 'C11': C11, 'C13': C13, 'C15': C15, 'C18': C18, 'C01': C01, 'C02': C02, 'C03': C03, 'C04': C04, 'C05': C05, 'C06': C06, 'C07': C07}
 
 
 def get(prop):
